@@ -278,6 +278,12 @@ pub fn run(tier: Tier) -> Report {
             c.shards = shards;
             c.voting_shards = shards;
             c.pos = pos;
+            // the second visual configuration also switches the own-area thresholds on (a separate
+            // code path at the head of predict; P and Q are disjoint, so every share is 1)
+            if max_idle == 0 {
+                c.vis.own_use = 0.3;
+                c.vis.own_collect = 0.2;
+            }
             cfgs.push((c, tier.pick(3, 4)));
         }
     }
